@@ -23,7 +23,10 @@ class NumberType(Type):
             if other is None:
                 return self.value, None
             elif other.dtype is None:
+                # two literals: compare numbers expressed in the units of the left one
+                other.convert(self.unit)
                 self.value = float(self.value)
+                other.value = float(other.value)
             else:
                 if other.dtype in [int,float]:
                     self.convert(other.unit)
